@@ -15,6 +15,11 @@ def serializers_get(format_name: "str") -> "cls":
     raises(DoNotExist)
     ensures("a-serializer-class", result == clsid("ProvJSONSerializer") or result == clsid("ProvXMLSerializer")
             or result == clsid("ProvRDFSerializer") or result == clsid("ProvNSerializer"))
+    # which name maps to which class (used by C16: the text / the reader depends on the format name only)
+    ensures("json", (result == clsid("ProvJSONSerializer")) == (format_name == "json"))
+    ensures("xml", (result == clsid("ProvXMLSerializer")) == (format_name == "xml"))
+    ensures("rdf", (result == clsid("ProvRDFSerializer")) == (format_name == "rdf"))
+    ensures("provn", (result == clsid("ProvNSerializer")) == (format_name == "provn"))
 
 
 @contract("prov.serializers.Serializer.__init__", props=["C17"])
@@ -99,6 +104,9 @@ def json_serialize(self: "ProvJSONSerializer", stream: "Handle") -> "none":
     raises(Exception, ensures=WritesOnlyTo(stream))
     ensures("writes-only-to-the-stream", WritesOnlyTo(stream))
     ensures("file-exists", fs_get(FdName(uf("handle_fd", "int", stream))) is not None)
+    ensures("appends-its-text", implies(self.document is not None and old(fs_get(FdName(uf("handle_fd", "int", stream)))) is not None,
+                                        same(fs_get(FdName(uf("handle_fd", "int", stream))),
+                                             some(the(old(fs_get(FdName(uf("handle_fd", "int", stream))))) + uf("ser_text", "str", "json", the(self.document))))))
 
 
 @contract("prov.serializers.provxml.ProvXMLSerializer.serialize")
@@ -108,6 +116,9 @@ def xml_serialize(self: "ProvXMLSerializer", stream: "Handle", force_types: "boo
     raises(Exception, ensures=WritesOnlyTo(stream))
     ensures("writes-only-to-the-stream", WritesOnlyTo(stream))
     ensures("file-exists", fs_get(FdName(uf("handle_fd", "int", stream))) is not None)
+    ensures("appends-its-text", implies(self.document is not None and old(fs_get(FdName(uf("handle_fd", "int", stream)))) is not None,
+                                        same(fs_get(FdName(uf("handle_fd", "int", stream))),
+                                             some(the(old(fs_get(FdName(uf("handle_fd", "int", stream))))) + uf("ser_text", "str", "xml", the(self.document))))))
 
 
 @contract("prov.serializers.provn.ProvNSerializer.serialize")
@@ -117,6 +128,9 @@ def provn_serialize(self: "ProvNSerializer", stream: "Handle") -> "none":
     raises(Exception, ensures=WritesOnlyTo(stream))
     ensures("writes-only-to-the-stream", WritesOnlyTo(stream))
     ensures("file-exists", fs_get(FdName(uf("handle_fd", "int", stream))) is not None)
+    ensures("appends-its-text", implies(self.document is not None and old(fs_get(FdName(uf("handle_fd", "int", stream)))) is not None,
+                                        same(fs_get(FdName(uf("handle_fd", "int", stream))),
+                                             some(the(old(fs_get(FdName(uf("handle_fd", "int", stream))))) + uf("ser_text", "str", "provn", the(self.document))))))
 
 
 @contract("prov.serializers.provrdf.ProvRDFSerializer.serialize")
@@ -126,6 +140,9 @@ def rdf_serialize(self: "ProvRDFSerializer", stream: "Handle" = None, rdf_format
     raises(Exception, ensures=WritesOnlyTo(stream))
     ensures("writes-only-to-the-stream", WritesOnlyTo(stream))
     ensures("file-exists", fs_get(FdName(uf("handle_fd", "int", stream))) is not None)
+    ensures("appends-its-text", implies(self.document is not None and old(fs_get(FdName(uf("handle_fd", "int", stream)))) is not None,
+                                        same(fs_get(FdName(uf("handle_fd", "int", stream))),
+                                             some(the(old(fs_get(FdName(uf("handle_fd", "int", stream))))) + uf("ser_text", "str", "rdf", the(self.document))))))
 
 
 @contract("prov.serializers.Serializer.serialize")
